@@ -84,6 +84,24 @@ pub fn note(name: &'static str, val: u64) {
     lock().trace.push(Ev { tid, name, val });
 }
 
+/// Run `f` on the calling thread as pseudo-thread `tid`: every point and note is recorded, nothing
+/// parks. Used for the sequential set-up calls of a scenario. Returns the recorded trace.
+pub fn record_as<R>(tid: usize, f: impl FnOnce() -> R) -> (R, Vec<Ev>) {
+    INSTALL.call_once(|| {
+        crux_core::verif::set_controller(Some(Arc::new(hit)));
+    });
+    {
+        let mut g = lock();
+        g.trace.clear();
+        g.free = true;
+    }
+    TID.with(|t| t.set(Some(tid)));
+    let r = f();
+    TID.with(|t| t.set(None));
+    let tr = std::mem::take(&mut lock().trace);
+    (r, tr)
+}
+
 /// Start a session with `n` controlled threads and the given set of parking points.
 pub fn begin(n: usize, park: &[&'static str]) {
     INSTALL.call_once(|| {
@@ -135,6 +153,41 @@ pub fn settle() -> bool {
 pub fn enabled() -> Vec<usize> {
     let g = lock();
     (0..g.status.len()).filter(|i| g.status[*i] == Status::Parked).collect()
+}
+
+/// Points that mark one turn of a spin loop (the executor re-queues a task that another thread
+/// holds and tries again).
+pub const SPIN: &[&str] = &["qe.run_task.unavailable"];
+pub const SPIN_BOUND: usize = 2;
+
+/// Fairness bound: a thread that has gone round a spin loop `SPIN_BOUND` times since any other
+/// thread last moved is not offered as a choice while some other thread can move (the spin itself
+/// is a liveness matter: it ends as soon as the thread holding the task is scheduled).
+pub fn enabled_fair() -> Vec<usize> {
+    let en = enabled();
+    if en.len() < 2 {
+        return en;
+    }
+    let g = lock();
+    let mut keep = Vec::new();
+    for t in &en {
+        let mut spins = 0;
+        for e in g.trace.iter().rev() {
+            if e.tid != *t {
+                if e.name != "start" {
+                    break;
+                }
+                continue;
+            }
+            if SPIN.contains(&e.name) {
+                spins += 1;
+            }
+        }
+        if spins < SPIN_BOUND {
+            keep.push(*t);
+        }
+    }
+    if keep.is_empty() { en } else { keep }
 }
 
 pub fn all_finished() -> bool {
@@ -195,7 +248,8 @@ pub fn join_all(hs: Vec<std::thread::JoinHandle<()>>, limit: Duration) -> bool {
 
 /// How the next thread is chosen once the prescribed prefix of a schedule is used up.
 pub enum Policy<'a> {
-    /// lowest enabled thread id (used by the exhaustive depth-first enumeration)
+    /// the thread that moved last if it is still enabled, else the lowest enabled thread id (the
+    /// deterministic continuation used by the depth-first enumeration)
     First,
     /// seeded random choice
     Random(&'a mut vh::rng::Rng),
@@ -236,7 +290,7 @@ pub fn run_schedule(
     let mut dir_idx = 0usize;
     let mut dir_steps = 0usize;
     while feasible {
-        let en = enabled();
+        let en = enabled_fair();
         if en.is_empty() {
             break;
         }
@@ -253,7 +307,11 @@ pub fn run_schedule(
             p
         } else {
             match &mut policy {
-                Policy::First => en[0],
+                // non-preemptive default: stay on the thread that moved last while it can move
+                Policy::First => match schedule.last() {
+                    Some(l) if en.contains(l) => *l,
+                    _ => en[0],
+                },
                 Policy::Random(r) => en[r.below(en.len() as u64) as usize],
                 Policy::Directed(ds) => {
                     let mut pick = en[0];
@@ -288,14 +346,21 @@ pub fn run_schedule(
     RunOutcome { schedule, choices, feasible, hung: !joined, trace, panicked }
 }
 
-/// Depth-first enumeration of every schedule of a scenario (each complete interleaving exactly
-/// once). `make` builds a fresh instance; `done` receives each run together with that instance's
-/// final observation. Returns (runs, exhausted?).
+/// Number of preemptions in a schedule: switches away from a thread that could still move.
+pub fn preemptions(schedule: &[usize], choices: &[Vec<usize>]) -> usize {
+    (1..schedule.len()).filter(|i| schedule[*i] != schedule[*i - 1] && choices[*i].contains(&schedule[*i - 1])).count()
+}
+
+/// Depth-first enumeration of every schedule of a scenario with at most `max_preempt` preemptions
+/// (each such interleaving exactly once; `usize::MAX` = all interleavings). `make` builds a fresh
+/// instance; `done` receives each run together with that instance.
+/// Returns (runs, exhausted within the bound?).
 pub fn explore_all<S>(
     mut make: impl FnMut() -> (S, Vec<Box<dyn FnOnce() + Send + 'static>>),
     park: &[&'static str],
     max_runs: usize,
     max_steps: usize,
+    max_preempt: usize,
     mut done: impl FnMut(S, RunOutcome),
 ) -> (usize, bool) {
     let mut stack: Vec<Vec<usize>> = vec![Vec::new()];
@@ -307,11 +372,13 @@ pub fn explore_all<S>(
         let (st, threads) = make();
         let out = run_schedule(threads, park, &prefix, Policy::First, max_steps);
         runs += 1;
-        if out.feasible || out.schedule.len() > prefix.len() {
-            // alternatives are pushed in reverse so that the enumeration order is lexicographic
-            for i in (prefix.len()..out.schedule.len()).rev() {
-                for alt in out.choices[i].iter().rev() {
-                    if *alt > out.schedule[i] {
+        // alternatives are pushed in reverse so that the enumeration order is lexicographic
+        for i in (prefix.len()..out.schedule.len()).rev() {
+            let base = preemptions(&out.schedule[..i], &out.choices[..i]);
+            for alt in out.choices[i].iter().rev() {
+                if *alt != out.schedule[i] {
+                    let extra = usize::from(i > 0 && out.choices[i].contains(&out.schedule[i - 1]) && *alt != out.schedule[i - 1]);
+                    if base + extra <= max_preempt {
                         let mut p = out.schedule[..i].to_vec();
                         p.push(*alt);
                         stack.push(p);
